@@ -208,9 +208,9 @@ Proofs/C10Facts.vos Proofs/C10Facts.vok Proofs/C10Facts.required_vos: Proofs/C10
 Proofs/C11Facts.vo Proofs/C11Facts.glob Proofs/C11Facts.v.beautified Proofs/C11Facts.required_vo: Proofs/C11Facts.v Base/Result.vo Base/Str.vo Base/AstOp.vo Gen/Tables_core.vo Model/Ast.vo Model/FM.vo Model/Ctc.vo Model/Queries.vo Model/Sem.vo Format/Glencoe.vo Format/Uvl.vo Format/Export.vo Proofs/FMFacts.vo Proofs/QueriesFacts.vo Proofs/C14Facts.vo Proofs/C18Facts.vo Proofs/C10Facts.vo
 Proofs/C11Facts.vio: Proofs/C11Facts.v Base/Result.vio Base/Str.vio Base/AstOp.vio Gen/Tables_core.vio Model/Ast.vio Model/FM.vio Model/Ctc.vio Model/Queries.vio Model/Sem.vio Format/Glencoe.vio Format/Uvl.vio Format/Export.vio Proofs/FMFacts.vio Proofs/QueriesFacts.vio Proofs/C14Facts.vio Proofs/C18Facts.vio Proofs/C10Facts.vio
 Proofs/C11Facts.vos Proofs/C11Facts.vok Proofs/C11Facts.required_vos: Proofs/C11Facts.v Base/Result.vos Base/Str.vos Base/AstOp.vos Gen/Tables_core.vos Model/Ast.vos Model/FM.vos Model/Ctc.vos Model/Queries.vos Model/Sem.vos Format/Glencoe.vos Format/Uvl.vos Format/Export.vos Proofs/FMFacts.vos Proofs/QueriesFacts.vos Proofs/C14Facts.vos Proofs/C18Facts.vos Proofs/C10Facts.vos
-Props/C10.vo Props/C10.glob Props/C10.v.beautified Props/C10.required_vo: Props/C10.v Base/Result.vo Model/Ast.vo Model/FM.vo Model/Queries.vo Model/Sem.vo Format/Export.vo Proofs/C18Facts.vo Proofs/C10Facts.vo
-Props/C10.vio: Props/C10.v Base/Result.vio Model/Ast.vio Model/FM.vio Model/Queries.vio Model/Sem.vio Format/Export.vio Proofs/C18Facts.vio Proofs/C10Facts.vio
-Props/C10.vos Props/C10.vok Props/C10.required_vos: Props/C10.v Base/Result.vos Model/Ast.vos Model/FM.vos Model/Queries.vos Model/Sem.vos Format/Export.vos Proofs/C18Facts.vos Proofs/C10Facts.vos
-Props/C11.vo Props/C11.glob Props/C11.v.beautified Props/C11.required_vo: Props/C11.v Base/Result.vo Model/Ast.vo Model/FM.vo Model/Queries.vo Model/Sem.vo Format/Export.vo Proofs/C18Facts.vo Proofs/C11Facts.vo
-Props/C11.vio: Props/C11.v Base/Result.vio Model/Ast.vio Model/FM.vio Model/Queries.vio Model/Sem.vio Format/Export.vio Proofs/C18Facts.vio Proofs/C11Facts.vio
-Props/C11.vos Props/C11.vok Props/C11.required_vos: Props/C11.v Base/Result.vos Model/Ast.vos Model/FM.vos Model/Queries.vos Model/Sem.vos Format/Export.vos Proofs/C18Facts.vos Proofs/C11Facts.vos
+Props/C10.vo Props/C10.glob Props/C10.v.beautified Props/C10.required_vo: Props/C10.v Base/Result.vo Base/AstOp.vo Model/Ast.vo Model/FM.vo Model/Queries.vo Model/Sem.vo Format/Export.vo Proofs/C18Facts.vo Proofs/C10Facts.vo
+Props/C10.vio: Props/C10.v Base/Result.vio Base/AstOp.vio Model/Ast.vio Model/FM.vio Model/Queries.vio Model/Sem.vio Format/Export.vio Proofs/C18Facts.vio Proofs/C10Facts.vio
+Props/C10.vos Props/C10.vok Props/C10.required_vos: Props/C10.v Base/Result.vos Base/AstOp.vos Model/Ast.vos Model/FM.vos Model/Queries.vos Model/Sem.vos Format/Export.vos Proofs/C18Facts.vos Proofs/C10Facts.vos
+Props/C11.vo Props/C11.glob Props/C11.v.beautified Props/C11.required_vo: Props/C11.v Base/Result.vo Base/AstOp.vo Model/Ast.vo Model/FM.vo Model/Queries.vo Model/Sem.vo Format/Export.vo Proofs/C18Facts.vo Proofs/C11Facts.vo
+Props/C11.vio: Props/C11.v Base/Result.vio Base/AstOp.vio Model/Ast.vio Model/FM.vio Model/Queries.vio Model/Sem.vio Format/Export.vio Proofs/C18Facts.vio Proofs/C11Facts.vio
+Props/C11.vos Props/C11.vok Props/C11.required_vos: Props/C11.v Base/Result.vos Base/AstOp.vos Model/Ast.vos Model/FM.vos Model/Queries.vos Model/Sem.vos Format/Export.vos Proofs/C18Facts.vos Proofs/C11Facts.vos
